@@ -25,13 +25,16 @@ type respSpec struct {
 	ttls  []uint32 // TTL of each answer record, in order
 	cname bool     // first record is a CNAME to c.example
 	// number of records of the asked type = len(ttls) (minus one if cname)
+	// foreign: TTLs of further records in the answer section that are NOT on the chain from the asked name (another owner): their
+	// data is not used, but they are records of the response - its smallest TTL counts them
+	foreign []uint32
 }
 
 // per version: key -> response shape
 var versions = []map[string]respSpec{
-	{"n1/65": {ttls: []uint32{5}}, "n1/1": {ttls: []uint32{2, 5}}, "n1/28": {ttls: []uint32{1000}},
+	{"n1/65": {ttls: []uint32{5}}, "n1/1": {ttls: []uint32{2, 5}}, "n1/28": {ttls: []uint32{1000}, foreign: []uint32{3}},
 		"n2/65": {ttls: []uint32{2147483647}} /* the largest TTL RFC 2181 allows */, "n2/1": {ttls: []uint32{5, 1}, cname: true}, "n2/28": {ttls: []uint32{2}, cname: true}},
-	{"n1/65": {ttls: []uint32{0}}, "n1/1": {ttls: []uint32{5, 2}}, "n1/28": {ttls: []uint32{1000, 400}},
+	{"n1/65": {ttls: []uint32{0}}, "n1/1": {ttls: []uint32{5, 2}}, "n1/28": {ttls: []uint32{1000, 400}, foreign: []uint32{900, 2}},
 		"n2/65": {}, "n2/1": {ttls: []uint32{0, 5}, cname: true}, "n2/28": {ttls: []uint32{5}, cname: true}},
 	{"n1/65": {ttls: []uint32{1}}, "n1/1": {ttls: []uint32{0, 5}}, "n1/28": {},
 		"n2/65": {}, "n2/1": {ttls: []uint32{2, 2}, cname: true}, "n2/28": {ttls: []uint32{0}, cname: true}},
@@ -43,6 +46,9 @@ func minTTL(s respSpec) (uint32, bool) {
 	}
 	m := s.ttls[0]
 	for _, t := range s.ttls {
+		m = min(m, t)
+	}
+	for _, t := range s.foreign {
 		m = min(m, t)
 	}
 	return m, true
@@ -72,6 +78,16 @@ func buildAnswer(name string, t uint16, v int) dohmem.Answer {
 			ip := net.ParseIP(fmt.Sprintf("2001:db8:%d::%d", v, i+1))
 			rrs = append(rrs, dnsref.RR{Name: owner, Type: 28, Class: 1, TTL: ttl, Fields: []dnsref.Field{{Raw: ip}}})
 		}
+	}
+	for i, ttl := range s.foreign {
+		raw := []byte{203, 0, 113, byte(i + 1)}
+		if t == 28 {
+			raw = net.ParseIP(fmt.Sprintf("2001:db8:ffff::%d", i+1))
+		}
+		if t == 65 {
+			continue
+		}
+		rrs = append(rrs, dnsref.RR{Name: "other.example", Type: t, Class: 1, TTL: ttl, Fields: []dnsref.Field{{Raw: raw}}})
 	}
 	return dohmem.Answer{Records: rrs}
 }
@@ -140,6 +156,9 @@ func expectedContent(name string, t uint16, v int) string {
 	a := buildAnswer(name, t, v)
 	var res ech.ResolveResult
 	for _, rr := range a.Records {
+		if rr.Name == "other.example" {
+			continue // a record of another owner: its data is not the asked name's
+		}
 		switch rr.Type {
 		case 65:
 			res.HTTPS = append(res.HTTPS, dns.HTTPS{ECH: []byte{0xec, byte(v)}})
